@@ -109,6 +109,13 @@ CHECKS["C07"] = {
   "text": "Proved for EvoWorklist.transfer and FluentWorklist.transfer with 1 triple (quick) and 2 triples (thorough) of symbolic wells / volumes / label, plates and troughs, same-labware transfers, wash schemes 1-4 / flush / reuse, DiTi mode, partition modes, pass-through liquid_class and tip, no splitting needed: the appended records are exactly comment + for each triple with a positive volume, in partition order, [A record, D record with the same volume / liquid class / tip mask, tip action]; source and destination volumes change by exactly the requested amounts; each participating labware gains exactly one history entry labelled with the label, earlier entries untouched; on every raise exit the records are a prefix of that sequence. " + _C07,
   "note": "Mixed: symbolic shapes are small (1-2 triples) and volumes below max_volume (no LVH split) in the deductive part; permutations of longer lists, splitting, break records and rejection of malformed arguments are explored by the bounded monitor. Known finding C11 (labels 'first'/'last') excluded by precondition.",
 }
+_C15 = _BOUNDED_ONLY.pop("C15")
+CHECKS["C15"] = {
+  "category": "other",
+  "technique": "contract-based deductive verification of WellShifter / WellRotator (objects built by symbolically executing the real constructors; loop invariants; element-wise geometric postconditions; inverse / bijection lemmas by z3) + bounded monitor for WellRandomizer",
+  "text": "Proved on the real bodies for symbolic plate shapes, anchors and well arrays (0-d, 1-D of any length, 2-D of any shape): WellShifter.__init__ raises KeyError / ValueError exactly when the anchor is off plate B / plate A does not fit, otherwise stores the anchor's offsets; shift / unshift return an array of the same shape with every id moved by (+/-dr, +/-dc) (index bounds follow from the constructor's check), KeyError for ids off the plate; rotate_cw maps (r,c) to (c, R-1-r), rotate_ccw to (C-1-c, r), same shape; lemmas: ccw after cw and four cw rotations are the identity, cw is injective and stays on the transposed plate, unshift after shift is the identity. " + _C15,
+  "note": "Mixed: WellRandomizer (permutation from numpy's RandomState; determinism by seed is a property of the library) is covered by the bounded monitor only. unshift is specified on the image of shift.",
+}
 for _pid, _txt in _BOUNDED_ONLY.items():
     CHECKS[_pid] = {
         "category": "exploration",
